@@ -107,11 +107,14 @@ def gen_case(rng):
             if kind.startswith("homodyne"):
                 c = {"op": "MeasureHomodyne", "p": [float(rng.choice([0.0, np.pi / 2, 0.37]))], "m": [m], "dag": False}
                 if kind.endswith("select"):
-                    c["kw"] = {"select": float(rng.uniform(-1, 1))}
+                    # (boundary: post-selection on exactly zero is a value like any other)
+                    c["kw"] = {"select": float(rng.choice([0.0, 0.0, float(rng.uniform(-1, 1)), float(rng.uniform(-1, 1))]))}
                 if m not in measured:
                     measured.append(m)
             elif kind == "heterodyne":
                 c = {"op": "MeasureHeterodyne", "p": [], "m": [m], "dag": False}
+                if rng.random() < 0.5:
+                    c["kw"] = {"select": enc(complex(0.0, 0.0) if rng.random() < 0.4 else complex(float(rng.normal(0, 0.5)), float(rng.choice([0.0, rng.normal(0, 0.5)]))))}
             else:
                 k = int(rng.integers(1, n + 1))
                 modes = [int(x) for x in rng.choice(n, k, replace=False)]
@@ -119,7 +122,7 @@ def gen_case(rng):
                 if kind == "fock-select":
                     c["kw"] = {"select": [int(x) for x in rng.integers(0, 3, k)]}
                 elif kind == "fock-dark":
-                    c["kw"] = {"dark_counts": [float(x) for x in rng.uniform(0.1, 0.9, k)]}
+                    c["kw"] = {"dark_counts": [float(x) for x in rng.uniform(0.1, 0.9, k) * (rng.random(k) < 0.8)]}
         # symbolic parameters
         if c["op"] in NARGS and NARGS.get(c["op"], 0) >= 1 and c["op"] != "Fock" and rng.random() < 0.3:
             pos = int(rng.integers(NARGS[c["op"]]))
@@ -506,7 +509,7 @@ def gen_codegen_case(rng):
     if kind.startswith("homodyne"):
         c = {"op": "MeasureHomodyne", "p": [val()], "m": [m], "dag": False}
         if kind.endswith("select"):
-            c["kw"] = {"select": float(np.round(rng.uniform(-1, 1), 5))}
+            c["kw"] = {"select": float(rng.choice([0.0, float(np.round(rng.uniform(-1, 1), 5))]))}
         cmds.append(c)
     elif kind.startswith("fock"):
         k = int(rng.integers(1, n + 1))
@@ -519,7 +522,7 @@ def gen_codegen_case(rng):
         cmds.append(c)
     elif kind == "heterodyne-select":
         cmds.append({"op": "MeasureHeterodyne", "p": [], "m": [m], "dag": False,
-                     "kw": {"select": enc(complex(np.round(rng.normal(0, 0.5), 4), np.round(rng.normal(0, 0.5), 4)))}})
+                     "kw": {"select": enc(complex(0, 0) if rng.random() < 0.3 else complex(np.round(rng.normal(0, 0.5), 4), np.round(rng.normal(0, 0.5), 4)))}})
     return {"codegen": True, "n": n, "cmds": cmds, "with_engine": bool(rng.random() < 0.3)}
 
 
